@@ -1,1 +1,101 @@
-pub fn _unused(){}
+//! Naive text definitions: occurrences, suffix comparison with sentinel order, LCP, Sellers DP, ...
+#![allow(dead_code)]
+use std::cmp::Ordering;
+
+pub fn occurrences(text: &[u8], p: &[u8]) -> Vec<usize> {
+    if p.is_empty() || p.len() > text.len() {
+        return vec![];
+    }
+    (0..=text.len() - p.len())
+        .filter(|&i| &text[i..i + p.len()] == p)
+        .collect()
+}
+
+pub fn occurs(text: &[u8], p: &[u8]) -> bool {
+    if p.is_empty() || p.len() > text.len() {
+        return false;
+    }
+    text.windows(p.len()).any(|w| w == p)
+}
+
+/// Compare two suffixes under: sentinel < every other symbol, sentinel occurrences compared by
+/// `sent_rank` (position -> rank), other symbols by byte value. Comparison ends at the first
+/// sentinel (ranks are unique).
+pub fn cmp_suffix(text: &[u8], sentinel: u8, sent_rank: &[usize], a: usize, b: usize) -> Ordering {
+    let n = text.len();
+    let (mut i, mut j) = (a, b);
+    loop {
+        if i >= n && j >= n {
+            return Ordering::Equal;
+        }
+        if i >= n {
+            return Ordering::Less;
+        }
+        if j >= n {
+            return Ordering::Greater;
+        }
+        let (ci, cj) = (text[i], text[j]);
+        match (ci == sentinel, cj == sentinel) {
+            (true, true) => return sent_rank[i].cmp(&sent_rank[j]),
+            (true, false) => return Ordering::Less,
+            (false, true) => return Ordering::Greater,
+            _ => {
+                if ci != cj {
+                    return ci.cmp(&cj);
+                }
+            }
+        }
+        i += 1;
+        j += 1;
+    }
+}
+
+pub fn common_prefix(text: &[u8], a: usize, b: usize) -> usize {
+    let mut l = 0;
+    while a + l < text.len() && b + l < text.len() && text[a + l] == text[b + l] {
+        l += 1;
+    }
+    l
+}
+
+/// Sellers' DP: D[j] = min edit distance between the pattern and any text substring ending at j
+/// (inclusive). `eq(p, t)` is the configured equality; `cost(p, t)` substitution cost.
+pub fn sellers(pattern: &[u8], text: &[u8], cost: &dyn Fn(u8, u8) -> usize) -> Vec<usize> {
+    let m = pattern.len();
+    let mut col: Vec<usize> = (0..=m).collect();
+    let mut out = Vec::with_capacity(text.len());
+    for &t in text {
+        let mut prev_diag = col[0];
+        col[0] = 0;
+        for i in 1..=m {
+            let tmp = col[i];
+            let v = (prev_diag + cost(pattern[i - 1], t))
+                .min(col[i] + 1)
+                .min(col[i - 1] + 1);
+            col[i] = v;
+            prev_diag = tmp;
+        }
+        out.push(col[m]);
+    }
+    out
+}
+
+pub fn levenshtein(a: &[u8], b: &[u8]) -> usize {
+    let mut col: Vec<usize> = (0..=a.len()).collect();
+    for &t in b {
+        let mut prev_diag = col[0];
+        col[0] += 1;
+        for i in 1..=a.len() {
+            let tmp = col[i];
+            col[i] = (prev_diag + (a[i - 1] != t) as usize)
+                .min(col[i] + 1)
+                .min(col[i - 1] + 1);
+            prev_diag = tmp;
+        }
+    }
+    col[a.len()]
+}
+
+pub fn hamming(a: &[u8], b: &[u8]) -> usize {
+    a.iter().zip(b).filter(|(x, y)| x != y).count()
+}
